@@ -109,18 +109,20 @@ static void mode_io_in(void)
 }
 
 /* ------------------------------------------------------------------------------------------------ io: output side */
-static unsigned char wire[256]; static int wlen; static int wlimit, wfail_at, wcalls;
+static unsigned char wire[256]; static int wlen; static int wlimit, wfail_at, wcalls, weintr_at = -1;
 static ssize_t wr(int fd, const char *buf, size_t len)
-{ (void) fd; if (wfail_at >= 0 && wcalls == wfail_at) { wcalls++; errno = EIO; return -1; } wcalls++; if (wlimit && len > (size_t) wlimit) len = wlimit; if (wlen + len > sizeof wire) h_real_exit(2); memcpy(wire + wlen, buf, len); wlen += len; return len; }
+{ (void) fd; if (weintr_at >= 0 && wcalls == weintr_at) { weintr_at = -1; errno = EINTR; return -1; }   /* an interrupted write: nothing was written, the caller retries the same bytes */
+  if (wfail_at >= 0 && wcalls == wfail_at) { wcalls++; errno = EIO; return -1; } wcalls++; if (wlimit && len > (size_t) wlimit) len = wlimit; if (wlen + len > sizeof wire) h_real_exit(2); memcpy(wire + wlen, buf, len); wlen += len; return len; }
 static void mode_io_out(void)
 {
   static const int plens[] = {0, 1, 2, 3, 5, 7, 13}; int B, a, b, c, lim, fail, method; char obuf[16];
-  for (B = 1; B <= 6; B++) for (a = 0; a < 7; a++) for (b = 0; b < 7; b++) for (c = 0; c < 7; c++) for (lim = 0; lim <= 3; lim++) for (method = 0; method < 3; method++) for (fail = -1; fail < 6; fail++) {
-    substdio ss; unsigned char data[64]; int total = 0, i, r = 0, lens[3], k, sent = 0;
+  for (B = 1; B <= 6; B++) for (a = 0; a < 7; a++) for (b = 0; b < 7; b++) for (c = 0; c < 7; c++) for (lim = 0; lim <= 3; lim++) for (method = 0; method < 3; method++) for (fail = -8; fail < 6; fail++) {   /* fail <= -2: no failure, but write number (-2 - fail) is interrupted once (EINTR) */
+    substdio ss; unsigned char data[64]; int total = 0, i, r = 0, lens[3], k, sent = 0; int eintr = fail <= -2 ? -2 - fail : -1;
+    if (fail <= -2) { fail = -1; }
     lens[0] = plens[a]; lens[1] = plens[b]; lens[2] = plens[c];
     for (i = 0; i < 40; i++) data[i] = 'A' + i;
-    substdio_fdbuf(&ss, wr, -1, obuf, B); wlen = 0; wlimit = lim; wfail_at = fail; wcalls = 0;
-    snprintf(h_cur, sizeof h_cur, "c00 substdio output B=%d puts=%d,%d,%d write-limit=%d method=%d fail-at-call=%d", B, lens[0], lens[1], lens[2], lim, method, fail);
+    substdio_fdbuf(&ss, wr, -1, obuf, B); wlen = 0; wlimit = lim; wfail_at = fail; wcalls = 0; weintr_at = eintr;
+    snprintf(h_cur, sizeof h_cur, "c00 substdio output B=%d puts=%d,%d,%d write-limit=%d method=%d fail-at-call=%d eintr-at-call=%d", B, lens[0], lens[1], lens[2], lim, method, fail, eintr);
     for (k = 0; k < 3 && r != -1; k++) {
       if (method == 0) r = substdio_put(&ss, (char *) data + total, lens[k]);
       else if (method == 1) r = substdio_bput(&ss, (char *) data + total, lens[k]);
@@ -136,6 +138,7 @@ static void mode_io_out(void)
       if (wlen > total + 13 || memcmp(wire, data, wlen)) { H_FAIL(key, "bytes written are not a prefix of the bytes put: %s (%s)", H_ESC(wire, wlen), h_cur); continue; }
       if (r != -1 && wlen != sent) { H_FAIL(key, "%d bytes put and flushed, %d bytes written (%s)", sent, wlen, h_cur); continue; } }
     n_nontrivial++;
+    if (eintr >= 0) fail = -2 - eintr;
   }
   H_SAMPLE("substdio output: buffers 1..6 x 3 puts of {0,1,2,3,5,7,13} bytes x put/bput/putflush x write limits x a failing write at every call");
 }
@@ -352,6 +355,27 @@ static void mode_cdb(void)
   H_SAMPLE("cdb: 9 records (empty key, duplicate key, case twins, bytes >= 0x80, 64-byte key) built by cdbmss; 13 lookups x {intact, one failing read at every call, every truncation}");
 }
 
+/* ------------------------------------------------------------------------------------------------ seek: offsets beyond 2^31 and 2^32 */
+#include "seek.h"
+static void mode_seek(const char *dir)
+{
+  static const long long offs[] = { 0, 1, 2147483647LL, 2147483648LL, 4294967295LL, 4294967296LL, 4294967301LL, 5000000000LL };
+  char path[600]; int fd; unsigned i; struct stat st;
+  snprintf(path, sizeof path, "%s/sparse", dir); fd = open(path, O_RDWR | O_CREAT | O_TRUNC, 0600); if (fd < 0) h_real_exit(2);
+  if (ftruncate(fd, 6000000000LL) == -1) { printf("NOTE sparse 6 GB file not supported here; seek mode skipped\n"); close(fd); unlink(path); return; }
+  for (i = 0; i < sizeof offs / sizeof *offs; i++) {
+    snprintf(h_cur, sizeof h_cur, "c00 seek functions at offset %lld", offs[i]);
+    if (seek_set(fd, (seek_pos) offs[i]) == -1 || lseek(fd, 0, SEEK_CUR) != (off_t) offs[i]) H_FAIL("lib:seek_set", "seek_set(%lld) leaves the descriptor at %lld", offs[i], (long long) lseek(fd, 0, SEEK_CUR));
+    if (lseek(fd, (off_t) offs[i], SEEK_SET) == -1) h_real_exit(2);
+    if ((long long) seek_cur(fd) != offs[i]) H_FAIL("lib:seek_cur", "seek_cur() at offset %lld reports %lld (an mbox this long would be rolled back to the wrong length)", offs[i], (long long) seek_cur(fd));
+    n_eval += 2; n_nontrivial++;
+  }
+  if (seek_end(fd) == -1 || lseek(fd, 0, SEEK_CUR) != (off_t) 6000000000LL) H_FAIL("lib:seek_end", "seek_end() on a 6000000000-byte file leaves the descriptor at %lld", (long long) lseek(fd, 0, SEEK_CUR));
+  for (i = sizeof offs / sizeof *offs; i-- > 0;) { snprintf(h_cur, sizeof h_cur, "c00 seek_trunc to %lld", offs[i]); if (seek_trunc(fd, (seek_pos) offs[i]) == -1 || fstat(fd, &st) == -1 || (long long) st.st_size != offs[i]) H_FAIL("lib:seek_trunc", "seek_trunc(%lld) gives a file of %lld bytes", offs[i], (long long) st.st_size); n_eval++; }
+  close(fd); unlink(path);
+  H_SAMPLE("seek_set/seek_cur/seek_end/seek_trunc at offsets around 2^31 and 2^32 on a sparse file");
+}
+
 int main(int argc, char **argv)
 {
   h_init();
@@ -361,6 +385,7 @@ int main(int argc, char **argv)
   else if (!strcmp(argv[1], "num")) mode_num();
   else if (!strcmp(argv[1], "ctl")) mode_ctl(argv[2], atoi(argv[3]));
   else if (!strcmp(argv[1], "map")) mode_map();
+  else if (!strcmp(argv[1], "seek")) mode_seek(argv[2]);
   else if (!strcmp(argv[1], "cdb")) mode_cdb();
   else return 2;
   printf("STAT evaluations=%ld distinct_nontrivial=%ld library_cases_%s=%ld\n", n_eval, n_nontrivial, argv[1], n_eval);
